@@ -62,6 +62,7 @@ type scenario struct {
 	MaxFaults  int
 	Concurrent bool // start every client before answering anything (default schedule)
 	Bound      int
+	CtxEnd     int // k > 0: the context of the request making the k-th backend read of the scenario ends while that backend call is in flight (the backend still answers successfully): a client that goes away, a deadline used up by the RPC
 }
 
 func opsString(ops []op) string {
@@ -99,7 +100,11 @@ func (s scenario) String() string {
 			p = append(p, subs[u].Name)
 		}
 	}
-	return fmt.Sprintf("%s pre[%s] %s cache=%s faults=%s/%d conc=%v bound=%d", s.Class, strings.Join(p, ","), strings.Join(cl, " || "), s.Cache, s.Faults, s.MaxFaults, s.Concurrent, s.Bound)
+	ce := ""
+	if s.CtxEnd > 0 {
+		ce = fmt.Sprintf(" request-context-ends-during-backend-read#%d", s.CtxEnd)
+	}
+	return fmt.Sprintf("%s pre[%s] %s cache=%s faults=%s/%d conc=%v bound=%d%s", s.Class, strings.Join(p, ","), strings.Join(cl, " || "), s.Cache, s.Faults, s.MaxFaults, s.Concurrent, s.Bound, ce)
 }
 
 // ---- one request and what the environment did to it -------------------------------
@@ -119,6 +124,7 @@ type request struct {
 	MayFail []string // cache read errors / poisoned cache contents met by this request (the request may fail)
 	Final   string   // "", "final", "final-nocache"
 	Note    []string // the calls and answers behind Faults / MayFail
+	cancel  context.CancelFunc
 }
 
 // faultClass groups the fault menu into the classes named in violation signatures.
@@ -188,6 +194,8 @@ type world struct {
 	bubble   bool
 	deferred []callInfo
 	ncalls   atomic.Int64 // store and cache calls made by the front end
+	cur      *request     // single-client scenarios: the request in progress
+	beReads  int          // backend read calls seen while the scenario proper runs
 }
 
 type override struct {
@@ -490,6 +498,14 @@ func newCache(kind string) cache.IssuanceChainCache {
 		return lru.NewIssuanceChainCache(lru.CacheOption{Size: 2})
 	case "lruN":
 		return lru.NewIssuanceChainCache(lru.CacheOption{Size: 1000})
+	case "factory-lru1", "factory-lru2", "factory-lruN":
+		// through the constructor the server binary uses (two logs of one process configured alike ask it twice)
+		n := map[string]int{"factory-lru1": 1, "factory-lru2": 2, "factory-lruN": 1000}[kind]
+		c, err := cache.NewIssuanceChainCache(context.Background(), cache.LRU, cache.Option{Size: n})
+		if err != nil {
+			panic(err)
+		}
+		return c
 	}
 	return nil
 }
@@ -500,6 +516,17 @@ func newWorld(sc *scenario, indirect, bubble bool, viol func(sig, format string,
 	w.real = newCache(sc.Cache)
 	w.be.SetHook(func(method string, req proto.Message, next func() (proto.Message, error)) (proto.Message, error) {
 		rsp, err := next()
+		if (method == "GetLeavesByRange" || method == "GetEntryAndProof") && sc.CtxEnd > 0 && !w.free.Load() {
+			w.mu.Lock()
+			w.beReads++
+			if r := w.cur; w.beReads == sc.CtxEnd && r != nil && r.cancel != nil {
+				r.cancel()
+				r.MayFail = append(r.MayFail, "request-context-ended")
+				r.Note = append(r.Note, "the request's context ended while "+method+" was in flight; the backend answered successfully")
+				w.faultsUsed++
+			}
+			w.mu.Unlock()
+		}
 		if method == "QueueLeaf" && err == nil {
 			if q := rsp.(*trillian.QueueLeafResponse).QueuedLeaf; q != nil && q.Leaf != nil {
 				w.mu.Lock()
@@ -549,11 +576,14 @@ func newWorld(sc *scenario, indirect, bubble bool, viol func(sig, format string,
 
 // issue performs one HTTP request against the front end (in the calling goroutine).
 func (w *world) issue(r *request) {
+	ctx, cancel := context.WithCancel(context.WithValue(context.Background(), ctxKey{}, r))
+	defer cancel()
 	w.mu.Lock()
 	w.reqs = append(w.reqs, r)
+	r.cancel = cancel
+	w.cur = r
 	w.mu.Unlock()
 	r.SizeAt = w.be.Size()
-	ctx := context.WithValue(context.Background(), ctxKey{}, r)
 	pan, msg, stack := enum.Catch(func() {
 		var rsp fe.Resp
 		switch r.Kind {
